@@ -217,10 +217,13 @@ func (conn *Conn) send() {
 				buf = buf[n:]
 			}
 
+			verifPoint("send.written", req, 0, 0)
 			select {
 			case conn.rchan <- req.Rc:
+				verifPoint("send.recycled", req, 1, 0)
 				break
 			default:
+				verifPoint("send.recycled", req, 0, 0)
 			}
 		}
 	}
